@@ -74,6 +74,7 @@ type roles struct {
 	createInstance *FuncInfo // method of *scope that calls ConstructorInvoker.Invoke* (the core)
 	creators       map[*types.Func]bool // the core and the *scope wrappers through which it is reached
 	createEntry    *FuncInfo            // the member of the chain that resolve calls
+	resolveTop     *FuncInfo            // the *scope method the entry points call: registry lookup, built-ins, then the lifetime dispatch (= resolve unless that was split)
 	setSingleton   *FuncInfo // method of *provider that stores into the sync.Map
 	getInstance    *FuncInfo
 	getSingleton   *FuncInfo
@@ -158,22 +159,19 @@ func resolveRoles(w *World) *roles {
 				}
 			case *ast.RangeStmt, *ast.ForStmt:
 				if il := asIterLoop(info, x.(ast.Stmt)); il != nil {
-					if fieldOf(info, il.Coll) == ro.initList {
+					if f, how := exprOrigin(w, fi, il.Coll); f == ro.initList && (how == "copy" || how == "direct") {
 						rangesInit = true
-					}
-					if il.CollObj != nil {
-						if f, how := localOrigin(w, fi, il.CollObj); f == ro.initList && how == "copy" {
-							rangesInit = true
-						}
 					}
 				}
 			}
 			return true
 		})
-		hasSwitch := len(lifetimeSwitches(w, fi)) > 0
+		hasSwitch := lifetimeDispatch(w, fi).dispatches()
 		switch {
 		case recv == "scope" && callsInvoke:
-			ro.createInstance = fi
+			if ro.createInstance == nil || isCoreShape(fi) {
+				ro.createInstance = fi
+			}
 		case recv == "scope" && hasSwitch && (storesCache || fi.Obj.Name() == "setInstance") && !callsInvoke:
 			ro.setInstance = fi
 		case recv == "provider" && storesSingle:
@@ -188,6 +186,20 @@ func resolveRoles(w *World) *roles {
 			ro.runInits = fi
 		}
 	}
+	// the invoker call may live in a private helper (invokeConstructor): the core
+	// is then the *scope method of the shape func(*Descriptor) (any, error) that drives it
+	for hops := 0; ro.createInstance != nil && !isCoreShape(ro.createInstance) && hops < 3; hops++ {
+		var up *FuncInfo
+		for c := range w.Callers()[ro.createInstance] {
+			if recvIs(c, "scope") && (up == nil || isCoreShape(c)) {
+				up = c
+			}
+		}
+		if up == nil {
+			break
+		}
+		ro.createInstance = up
+	}
 	// the creation chain: the core plus *scope methods of the same shape that call a member
 	ro.creators = map[*types.Func]bool{}
 	if ro.createInstance != nil {
@@ -196,7 +208,7 @@ func resolveRoles(w *World) *roles {
 		for changed := true; changed; {
 			changed = false
 			for _, fi := range w.FuncsOf(w.Godi) {
-				if ro.creators[fi.Obj] || !recvIs(fi, "scope") || fi == ro.setInstance || len(lifetimeSwitches(w, fi)) > 0 {
+				if ro.creators[fi.Obj] || !recvIs(fi, "scope") || fi == ro.setInstance || lifetimeDispatch(w, fi).dispatches() {
 					continue
 				}
 				sig := fi.Obj.Type().(*types.Signature)
@@ -217,7 +229,7 @@ func resolveRoles(w *World) *roles {
 		if rn := recvNamed(fi.Obj); rn == nil || rn.Obj().Name() != "scope" || fi == ro.setInstance {
 			continue
 		}
-		if len(lifetimeSwitches(w, fi)) == 0 || ro.createInstance == nil {
+		if !lifetimeDispatch(w, fi).dispatches() || ro.createInstance == nil {
 			continue
 		}
 		for _, c := range callsIn(fi.Decl.Body, true) {
@@ -226,6 +238,25 @@ func resolveRoles(w *World) *roles {
 				ro.createEntry = w.Decls[cal]
 			}
 		}
+	}
+	// resolveTop: the unexported *scope method from which the dispatching function is reached
+	ro.resolveTop = ro.resolve
+	for hops := 0; ro.resolveTop != nil && hops < 3; hops++ {
+		var up *FuncInfo
+		n := 0
+		for c := range w.Callers()[ro.resolveTop] {
+			if c == ro.resolveTop {
+				continue
+			}
+			n++
+			if recvIs(c, "scope") && !c.Obj.Exported() && !ro.creators[c.Obj] && c != ro.runInits {
+				up = c
+			}
+		}
+		if n != 1 || up == nil {
+			break
+		}
+		ro.resolveTop = up
 	}
 	ro.newScope = w.Fn(w.Godi, "newScope")
 	for _, fi := range w.FuncsOf(w.Godi) {
@@ -333,53 +364,11 @@ func ruleEntry(w *World, r *Report, rule string) {
 		for _, m := range []string{"Get", "GetKeyed", "GetGroup", "CreateScope"} {
 			fi := w.MustFn(w.Godi, "(*"+owner+")."+m)
 			r.Analysed(fi)
-			info := fi.Pkg.TypesInfo
-			fl := w.FlowOf(fi)
-			sol := fl.Solve(Spec{Must: true, Edge: func(b *cfg.Block, i int, cond ast.Expr, in Facts) (gen, kill []string) {
-				if cond == nil {
-					return
-				}
-				if dead, ok := disposedTest(info, cond, flag); ok {
-					if dead == (i == 0) {
-						gen = append(gen, "dead")
-					} else {
-						gen = append(gen, "alive")
-					}
-				}
-				return
-			}})
 			con := fi.Name() + "#entry-check"
-			bad := ""
-			sawTest := false
-			for _, n := range fl.Nodes() {
-				if e, ok := n.(ast.Expr); ok {
-					if _, isT := disposedTest(info, e, flag); isT {
-						sawTest = true
-						continue
-					}
-				}
-				if isEffectNodeEntry(info, n) && !sol.Before[n].Has("alive") {
-					bad = fmt.Sprintf("%s at %s is executed without the disposed flag having been found clear", nodeStr(n), w.Pos(n.Pos()))
-					break
-				}
-			}
-			if !sawTest {
+			res := analyseEntry(w, fi, flag, sentinel, 2)
+			bad := res.bad
+			if bad == "" && !res.sawTest {
 				bad = "the method never tests its own disposed flag"
-			}
-			if bad == "" {
-				for _, ex := range fl.Exits() {
-					if !sol.AtExit(ex).Has("dead") {
-						continue
-					}
-					if ex.Ret == nil || len(ex.Ret.Results) == 0 {
-						bad = "the disposed edge does not return"
-						continue
-					}
-					last := ex.Ret.Results[len(ex.Ret.Results)-1]
-					if o := objOf(info, last); o == nil || o.Name() != sentinel {
-						bad = fmt.Sprintf("on the disposed edge the method returns %s, not %s", exprStr(last), sentinel)
-					}
-				}
 			}
 			if bad != "" {
 				r.Fail(rule, con, fi.Decl.Pos(), "%s: %s", fi.Name(), bad)
@@ -390,13 +379,139 @@ func ruleEntry(w *World, r *Report, rule string) {
 	}
 }
 
+type entryResult struct {
+	bad     string
+	sawTest bool
+	pure    bool // no effects at all (only the flag test and argument checks)
+}
+
+// analyseEntry: in fi (and the private checking helpers it calls: functions
+// whose last result is an error or a bool and which test the flag), every
+// effect is dominated by "the disposed flag was found clear", and every exit on
+// the "found set" edge returns the sentinel (or propagates the helper's error).
+func analyseEntry(w *World, fi *FuncInfo, flag *types.Var, sentinel string, depth int) entryResult {
+	info := fi.Pkg.TypesInfo
+	fl := w.FlowOf(fi)
+	res := entryResult{pure: true}
+	// checking helpers called here
+	checking := map[*types.Func]bool{}
+	errVarOf := map[types.Object]bool{}
+	if depth > 0 {
+		for _, n := range fl.Nodes() {
+			for _, c := range callsIn(n, false) {
+				cal := callee(info, c)
+				if cal == nil || cal.Exported() || w.Decls[cal] == nil || w.Decls[cal].Pkg != fi.Pkg || w.Decls[cal] == fi {
+					continue
+				}
+				sub := analyseEntry(w, w.Decls[cal], flag, sentinel, depth-1)
+				if !sub.sawTest || !sub.pure {
+					continue
+				}
+				checking[cal] = true
+				res.sawTest = true
+				if sub.bad != "" && res.bad == "" {
+					res.bad = "in " + w.Decls[cal].Name() + ": " + sub.bad
+				}
+				if as, ok := n.(*ast.AssignStmt); ok && len(as.Rhs) == 1 && unparen(as.Rhs[0]) == ast.Expr(c) {
+					if o := objOf(info, as.Lhs[len(as.Lhs)-1]); o != nil && isErrorType(o.Type()) {
+						errVarOf[o] = true
+					}
+				}
+			}
+		}
+	}
+	sol := fl.Solve(Spec{Must: true, Global: globalPrefixes("alive", "dead"),
+		Stop: func(h *FuncInfo) bool { return !checking[h.Obj] },
+		Edge: func(b *cfg.Block, i int, cond ast.Expr, in Facts) (gen, kill []string) {
+			if cond == nil {
+				return
+			}
+			if dead, ok := disposedTest(info, cond, flag); ok {
+				if dead == (i == 0) {
+					gen = append(gen, "dead")
+				} else {
+					gen = append(gen, "alive")
+				}
+			}
+			// the error of a checking helper, on its non-nil edge
+			if be, ok := unparen(cond).(*ast.BinaryExpr); ok && (be.Op == token.NEQ || be.Op == token.EQL) {
+				for _, pair := range [][2]ast.Expr{{be.X, be.Y}, {be.Y, be.X}} {
+					if o := objOf(info, pair[0]); o != nil && errVarOf[o] && isNilIdent(info, pair[1]) {
+						if (be.Op == token.NEQ) == (i == 0) {
+							gen = append(gen, "herr:"+o.Name())
+						}
+					}
+				}
+			}
+			return
+		}})
+	for _, n := range fl.Nodes() {
+		if e, ok := n.(ast.Expr); ok {
+			if _, isT := disposedTest(info, e, flag); isT {
+				res.sawTest = true
+				continue
+			}
+		}
+		if isEffectNodeEntryExcept(info, n, func(cal *types.Func) bool {
+			if checking[cal] {
+				return true
+			}
+			_, isP := disposedPredicate(cal, flag, 2)
+			return isP
+		}) {
+			res.pure = false
+			if !sol.Before[n].Has("alive") && res.bad == "" {
+				res.bad = fmt.Sprintf("%s at %s is executed without the disposed flag having been found clear", nodeStr(n), w.Pos(n.Pos()))
+			}
+		}
+	}
+	for _, ex := range fl.Exits() {
+		at := sol.AtExit(ex)
+		herr := ""
+		for k := range at {
+			if strings.HasPrefix(k, "herr:") {
+				herr = strings.TrimPrefix(k, "herr:")
+			}
+		}
+		if !at.Has("dead") && herr == "" {
+			continue
+		}
+		if ex.Ret == nil || len(ex.Ret.Results) == 0 {
+			if res.bad == "" {
+				res.bad = "the disposed edge does not return"
+			}
+			continue
+		}
+		last := ex.Ret.Results[len(ex.Ret.Results)-1]
+		o := objOf(info, last)
+		switch {
+		case at.Has("dead") && (o == nil || o.Name() != sentinel):
+			if res.bad == "" {
+				res.bad = fmt.Sprintf("on the disposed edge the method returns %s, not %s", exprStr(last), sentinel)
+			}
+		case !at.Has("dead") && herr != "" && (o == nil || o.Name() != herr):
+			if res.bad == "" {
+				res.bad = fmt.Sprintf("the error of the entry check is not returned as it is (%s instead of %s)", exprStr(last), herr)
+			}
+		}
+	}
+	return res
+}
+
 // isEffectNodeEntry: calls other than pure builtins/atomic loads/conversions count as effects.
 func isEffectNodeEntry(info *types.Info, n ast.Node) bool {
+	return isEffectNodeEntryExcept(info, n, nil)
+}
+
+func isEffectNodeEntryExcept(info *types.Info, n ast.Node, pure func(*types.Func) bool) bool {
 	eff := false
 	inspectNoLit(n, func(m ast.Node) bool {
 		switch x := m.(type) {
 		case *ast.CallExpr:
 			if cal := callee(info, x); cal != nil && isAtomicFunc(cal) && strings.HasPrefix(cal.Name(), "Load") {
+				return true
+			}
+			if cal := callee(info, x); cal != nil && pure != nil && pure(cal) {
 				return true
 			}
 			if id, ok := unparen(x.Fun).(*ast.Ident); ok {
@@ -419,6 +534,102 @@ func isEffectNodeEntry(info *types.Info, n ast.Node) bool {
 // disposedTest matches `atomic.LoadInt32(&x.flag) != 0`, `== 0`, `x.flag.Load()`, `!x.flag.Load()`.
 // dead=true means: the expression is true when the flag is set.
 func disposedTest(info *types.Info, cond ast.Expr, flag *types.Var) (dead bool, ok bool) {
+	return disposedTestDepth(info, cond, flag, 2)
+}
+
+// theWorld is set by Load; disposedTest follows boolean predicate helpers through it.
+var theWorld *World
+
+// disposedPredicate: for a repository function returning a single bool, whether
+// "returns true" means the flag was found set (dead=true) or clear (dead=false).
+func disposedPredicate(cal *types.Func, flag *types.Var, depth int) (dead bool, ok bool) {
+	w := theWorld
+	if w == nil || cal == nil || depth <= 0 {
+		return false, false
+	}
+	fi := w.Decls[cal]
+	if fi == nil {
+		return false, false
+	}
+	sig := cal.Type().(*types.Signature)
+	if sig.Results().Len() != 1 {
+		return false, false
+	}
+	if b, isB := sig.Results().At(0).Type().Underlying().(*types.Basic); !isB || b.Info()&types.IsBoolean == 0 {
+		return false, false
+	}
+	info := fi.Pkg.TypesInfo
+	fl := w.FlowOf(fi)
+	sol := fl.Solve(Spec{Must: true, Edge: func(b *cfg.Block, i int, cond ast.Expr, in Facts) (gen, kill []string) {
+		if cond == nil {
+			return
+		}
+		if d, isT := disposedTestDepth(info, cond, flag, depth-1); isT {
+			if d == (i == 0) {
+				gen = append(gen, "dead")
+			} else {
+				gen = append(gen, "alive")
+			}
+		}
+		return
+	}})
+	// every `return true` exit agrees on one state and every `return false` exit on the other
+	state := map[string]string{}
+	for _, ex := range fl.Exits() {
+		if ex.Ret == nil || len(ex.Ret.Results) != 1 {
+			if ex.Panic {
+				continue
+			}
+			return false, false
+		}
+		res := ex.Ret.Results[0]
+		at := sol.AtExit(ex)
+		val := exprStr(unparen(res))
+		var st string
+		switch {
+		case at.Has("dead"):
+			st = "dead"
+		case at.Has("alive"):
+			st = "alive"
+		}
+		if val != "true" && val != "false" {
+			// returns the test itself
+			if d, isT := disposedTestDepth(info, res, flag, depth-1); isT && st == "" {
+				if d {
+					state["true"], state["false"] = merge(state["true"], "dead"), merge(state["false"], "alive")
+				} else {
+					state["true"], state["false"] = merge(state["true"], "alive"), merge(state["false"], "dead")
+				}
+				continue
+			}
+			return false, false
+		}
+		if st == "" {
+			return false, false
+		}
+		state[val] = merge(state[val], st)
+	}
+	switch {
+	case state["true"] == "dead" && (state["false"] == "alive" || state["false"] == ""):
+		return true, true
+	case state["true"] == "alive" && (state["false"] == "dead" || state["false"] == ""):
+		return false, true
+	case state["true"] == "" && state["false"] == "dead":
+		return false, true
+	case state["true"] == "" && state["false"] == "alive":
+		return true, true
+	}
+	return false, false
+}
+
+func merge(a, b string) string {
+	if a == "" || a == b {
+		return b
+	}
+	return "mixed"
+}
+
+func disposedTestDepth(info *types.Info, cond ast.Expr, flag *types.Var, depth int) (dead bool, ok bool) {
 	c := unparen(cond)
 	neg := false
 	for {
@@ -449,6 +660,11 @@ func disposedTest(info *types.Info, cond ast.Expr, flag *types.Var) (dead bool, 
 	}
 	if isLoad(c) { // atomic.Bool
 		return !neg, true
+	}
+	if call, isC := c.(*ast.CallExpr); isC {
+		if d, isP := disposedPredicate(callee(info, call), flag, depth); isP {
+			return d != neg, true
+		}
 	}
 	be, isB := c.(*ast.BinaryExpr)
 	if !isB {
@@ -526,34 +742,20 @@ func ruleWatcher(w *World, r *Report, rule string) {
 			continue
 		}
 		g := cs.goStmts[0]
-		lit, _ := unparen(g.Call.Fun).(*ast.FuncLit)
-		bad := ""
-		if lit == nil || len(lit.Body.List) == 0 {
-			bad = "the goroutine is not a literal"
-		} else {
-			es, ok := lit.Body.List[0].(*ast.ExprStmt)
-			if !ok || !isDoneReceive(info, es.X) {
-				bad = "the watcher does not start by receiving from Done()"
-			} else {
-				call := unparen(es.X).(*ast.UnaryExpr).X.(*ast.CallExpr)
-				rcv, _, _ := methodCall(call)
-				if objOf(info, rcv) != cs.ctxObj {
-					bad = "the watcher waits on " + exprStr(rcv) + ", not on the context returned by this function's WithCancel"
-				}
-			}
-			closes := false
-			for _, c := range callsIn(lit.Body, true) {
-				if rcv, k, ok := isCloseCall(info, c); ok && k == "scope" {
-					if objOf(info, rcv) == cs.scopeObj {
-						closes = true
-					} else {
-						bad = "the watcher closes " + exprStr(rcv) + ", not the scope created here"
-					}
-				}
-			}
-			if !closes && bad == "" {
+		ctxE, scE, bad := watcherOf(w, info, g)
+		if bad == "" {
+			switch {
+			case ctxE == nil:
+				bad = "the watcher does not wait on a context of this function"
+			case objOf(info, ctxE) != cs.ctxObj:
+				bad = "the watcher waits on " + exprStr(ctxE) + ", not on the context returned by this function's WithCancel"
+			case scE == nil:
 				bad = "the watcher never closes the new scope"
+			case objOf(info, scE) != cs.scopeObj:
+				bad = "the watcher closes " + exprStr(scE) + ", not the scope created here"
 			}
+		}
+		{
 			// reaching definition of ctx at the go statement is the WithCancel assignment
 			fl := w.FlowOf(fi)
 			sol := fl.Solve(Spec{Must: true, Node: func(n ast.Node, in Facts) (gen, kill []string) {
@@ -805,7 +1007,7 @@ func ruleWhoCloses(w *World, r *Report, rule string) {
 				switch {
 				case isLoopCall(c) && isCloseMethod:
 					r.OK(rule, con, c.Pos(), true, "disposal loop of the owner's Close")
-				case (fi == ro.setInstance || fi == ro.setSingleton) && overlapIdiom(w, fi, c):
+				case isTrackingCode(w, ro, fi) && overlapIdiom(w, fi, c):
 					r.OK(rule, con, c.Pos(), true, "overlap-disposal idiom: the instance is closed here only because the disposed flag was found set inside the list's critical section, i.e. it was not (and will never be) tracked")
 				default:
 					r.Fail(rule, con, c.Pos(), "an instance's Close() is called from %s outside the owner's disposal loop: container-held instances may be closed early or twice", fi.Name())
@@ -829,8 +1031,23 @@ func isHelperOfClose(w *World, fi *FuncInfo) bool {
 // overlapIdiom: the Close call is reached only on the edge where the disposed
 // flag was found set, after the list's lock was taken, and the function then
 // returns an error without appending.
+// isTrackingCode: setInstance, setSingleton or a private helper of one of them.
+func isTrackingCode(w *World, ro *roles, fi *FuncInfo) bool {
+	for _, owner := range []*FuncInfo{ro.setInstance, ro.setSingleton} {
+		for _, g := range w.Within(owner, 2) {
+			if g == fi && (g == owner || (g != ro.setInstance && g != ro.setSingleton && !ro.isCreate(g.Obj) && g.Obj.Name() != "Close")) {
+				return true
+			}
+		}
+	}
+	return false
+}
+
 func overlapIdiom(w *World, fi *FuncInfo, call *ast.CallExpr) bool {
 	info := fi.Pkg.TypesInfo
+	if recvNamed(fi.Obj) == nil {
+		return false
+	}
 	owner := recvNamed(fi.Obj).Obj().Name()
 	flag := w.Field(w.Godi, owner, "disposed")
 	fl := w.FlowOf(fi)
@@ -876,4 +1093,19 @@ func helperMayClose(w *World, info *types.Info, call *ast.CallExpr, obj types.Ob
 		}
 	}
 	return false
+}
+
+// isCoreShape: func (s *scope) f(d *Descriptor) (any, error)
+func isCoreShape(fi *FuncInfo) bool {
+	sig, ok := fi.Obj.Type().(*types.Signature)
+	if !ok || sig.Params().Len() != 1 || sig.Results().Len() != 2 {
+		return false
+	}
+	if !isNamedType(sig.Params().At(0).Type(), modPath, "Descriptor") {
+		return false
+	}
+	if _, isIface := sig.Results().At(0).Type().Underlying().(*types.Interface); !isIface {
+		return false
+	}
+	return isErrorType(sig.Results().At(1).Type())
 }
